@@ -240,6 +240,24 @@ func (nr *netRun) checkC09(x *xfer) {
 func (nr *netRun) checkC10(x *xfer) {
 	r := nr.r
 	v0 := encNode(x.voucher.Voucher)
+	// "a restart of a channel that is cleaning up only finishes the cleanup": nothing is re-issued, nothing is opened
+	for _, op := range nr.ops {
+		if op.X != x || op.Kind != "Restart" || !op.PreOK || !isCleanup(op.Pre.Status) || !op.Call.Returned || op.Life != op.Node.life {
+			continue
+		}
+		n := op.Node
+		r.Probe("restart-of-cleaning-up-channel")
+		for _, w := range n.Wire {
+			if w.Step >= op.Call.S0 && w.Life == op.Life && (w.Dir == "send" || (w.Dir == "sent" && w.Carrier == "graphsync")) && w.Sum.Req && (w.Sum.Restart && w.Sum.TID == x.chid.ID || w.Sum.RestartEx && w.Sum.RestartChi == x.chid.String()) {
+				r.Failf("C10", "restart-of-cleaning-up-channel-reissued", n.Name+"|"+w.Sum.Kind(), "node %s restarted channel #%d while it was %s (cleanup only) and sent %s", n.Name, x.idx, datatransfer.Statuses[op.Pre.Status], w.Sum)
+			}
+		}
+		for _, tc := range n.TpCalls {
+			if tc.Kind == "open" && tc.ChID == x.chid && tc.Life == op.Life && tc.Step >= op.Call.S0 {
+				r.Failf("C10", "restart-of-cleaning-up-channel-reissued", n.Name+"|transport-open", "node %s restarted channel #%d while it was %s (cleanup only) and opened a transport channel", n.Name, x.idx, datatransfer.Statuses[op.Pre.Status])
+			}
+		}
+	}
 	newReqs := 0
 	for _, n := range []*Node{nr.A, nr.B} {
 		for _, w := range n.Wire {
@@ -946,6 +964,27 @@ func (nr *netRun) checkC08(x *xfer) {
 					r.Failf("C08", "progress-while-paused-at-limit", datatransfer.Events[e.Code]+cause, "responder channel #%d paused at its data limit with %d limited bytes (step %d) shows %d after %s at step %d although nothing resumed it", x.idx, at, pausedAt, lim(e.Snap), datatransfer.Events[e.Code], e.Step)
 					pausedAt = -1
 				}
+			}
+		}
+	}
+	// C03: a responder awaiting finalization is released only by an update that no longer requires it
+	for _, op := range nr.ops {
+		if op.X != x || op.Node != b || op.Kind != "UpdateValidationStatus" || !op.Call.Returned || op.Call.Err != nil || op.Life != b.life || !op.PreOK || !op.PostOK {
+			continue
+		}
+		if op.Pre.Status == datatransfer.Finalizing && op.Res.Accepted && op.Res.RequiresFinalization {
+			overl := false
+			for _, o2 := range nr.ops {
+				if o2 != op && o2.X == x && o2.Node == b && (o2.Kind == "UpdateValidationStatus" || o2.Kind == "Resume") && o2.Call.S0 <= op.Call.S1 && (!o2.Call.Returned || o2.Call.S1 >= op.Call.S0) {
+					overl = true
+				}
+			}
+			if overl {
+				continue
+			}
+			r.Probe("non-releasing-update-while-finalizing")
+			if op.Post.Status != datatransfer.Finalizing || !op.Post.RPaused {
+				r.Failf("C03", "finalizing-released-by-non-releasing-update", datatransfer.Statuses[op.Post.Status], "responder channel #%d was Finalizing; an accepting update that still requires finalization (limit %d) left it %s (responder paused=%v)", x.idx, op.Res.DataLimit, datatransfer.Statuses[op.Post.Status], op.Post.RPaused)
 			}
 		}
 	}
